@@ -9,7 +9,9 @@ CONSTANTS
   Metas = {"none", "empty", "fillm", "fill", "fillp"}
   Customs = {"none", "two", "fill"}
   Blindeds = {0, 1, 2, 3}
-  CodeClasses = {"node_temp", "node_perm", "perm", "update", "plain", "recipient"}
+  CodeClasses = {"node_temp", "node_perm", "perm", "plain", "recipient"}
+  ULens = {0, 1, 2, 136, 1000}
+  KeyHops = {3, 19, 20, 21}
   DLens = {0, 7, 254, 255, 300}
   EncFwd = 46
   EncRecv = 76
